@@ -5,6 +5,7 @@ import (
 	"os"
 	"path/filepath"
 	"strings"
+	"syscall"
 	"time"
 
 	"github.com/protobom/protobom/pkg/sbom"
@@ -41,6 +42,10 @@ type startState struct {
 	IsFile  bool
 	Missing bool
 	Symlink bool
+	// Relative: the configured path is relative and the process' working directory is the sandbox
+	Relative bool
+	// Umask >= 0: the process' file-mode creation mask during the history (an environment answer)
+	Umask int
 }
 
 var startStates = []startState{
@@ -65,6 +70,12 @@ var startStates = []startState{
 		_ = os.MkdirAll(d, 0o755)
 		return s + "/store/../store/."
 	}},
+	// environment answers: working directory (relative configured path) and file-mode creation mask
+	{Name: "relative-path-existing", Prepare: func(s string) string { _ = os.MkdirAll(filepath.Join(s, "store"), 0o755); return "store" }, Relative: true},
+	{Name: "relative-path-missing", Prepare: func(s string) string { return filepath.Join("n1", "store") }, Relative: true, Missing: true},
+	{Name: "umask-077-missing", Prepare: func(s string) string { return filepath.Join(s, "n1", "store") }, Missing: true, Umask: 0o077},
+	{Name: "umask-000-missing", Prepare: func(s string) string { return filepath.Join(s, "store") }, Missing: true, Umask: 0o1000},
+	{Name: "umask-027-existing", Prepare: func(s string) string { d := filepath.Join(s, "store"); _ = os.MkdirAll(d, 0o755); return d }, Umask: 0o027},
 }
 
 // world is the reference model.
@@ -121,6 +132,9 @@ func applyOp(t *engine.T, st startState, sandbox, dir string, w *world, o op, fa
 	// confinement: everything new lies under the configured directory
 	after := listTree(sandbox)
 	rel, _ := filepath.Rel(sandbox, filepath.Clean(dir))
+	if st.Relative {
+		rel = filepath.Clean(dir)
+	}
 	if st.Symlink {
 		rel = "real"
 	}
@@ -222,6 +236,18 @@ func runHistory(t *engine.T, st startState, h []op, faultStep int, faultErr erro
 	}
 	defer os.RemoveAll(sandbox)
 	dir := st.Prepare(sandbox)
+	if st.Relative {
+		if cwd, err := os.Getwd(); err == nil {
+			defer os.Chdir(cwd) //nolint:errcheck
+		}
+		if err := os.Chdir(sandbox); err != nil {
+			return engine.Violate("harness", "", "chdir: %v", err)
+		}
+	}
+	if st.Umask != 0 {
+		old := syscall.Umask(st.Umask & 0o777) // 0o1000 encodes mask 000
+		defer syscall.Umask(old)
+	}
 	w := &world{docs: map[string]*sbom.Document{}}
 	vfs.Reset(vfs.Passthrough)
 	for i, o := range h {
